@@ -366,6 +366,12 @@ def r8_children_order(cx):
         # the comparator reads the field `timestamp` of both elements and nothing else
         flds = set()
         for bi, b in enumerate(cl.blocks):
+            # `sort_by_key(|t| t.timestamp)`: the key is returned, not passed to a comparison
+            for st in b["s"]:
+                if st[0] == "A" and st[1][0] == 0 and not st[1][1] and st[2][0] == "use" and st[2][1][0] != "k":
+                    r_ = pa.root(cl, st[2][1])
+                    if r_[0] == "param" and r_[3]:
+                        flds |= {x for x in r_[3] if x not in ("*",) and not x.startswith("@") and not x.isdigit()}
             t = b["t"]
             if t[0] == "call":
                 for a in t[2]:
